@@ -1,11 +1,16 @@
 (** C15 -- Module loading terminates: cyclic imports are rejected, acyclic ones load.
-    PARTIAL: the per-import theorems are proved (a file on the current import chain is rejected before it is read; bad
-    extension and missing file are error values; an accepted import splices in place).  Termination of loading over
-    an arbitrary finite file map (the chain grows by a distinct file at every nesting level, so the depth is bounded by
-    the number of files) and "acyclic graphs load in source order" are not proved as theorems -- the parser model runs
-    on fuel and the graphs stream enumerates import graphs (all 65536 on 4 files in the thorough tier). *)
+    Termination is a theorem: for every finite file map -- every list of (path, text) pairs -- and every main module,
+    lexing + parsing + loading returns a statement list or an error value within a fuel bound computed from the sizes
+    alone ([C15_loading_terminates], [C15_loading_a_file_list_terminates], [C15_loading_a_file_list_returns]).  The proof
+    (Proofs/LoaderTerm.v) found that the loader did NOT terminate for the set {root imports a; a = import of b, then
+    `_টাইপ = "a.pakhi";`; b = the module keyword alone}: the repair is a "fix:" commit of /repo (DESIGN D.9) and the model
+    carries it.  The per-import theorems are as before (a file on the current import chain is rejected before it is
+    read; bad extension and missing file are error values; an accepted import splices in place).
+    PARTIAL: "an acyclic graph loads successfully, each import statement running its module once in source order" is
+    stated per import (the splice theorem), not for whole graphs; the graphs stream enumerates import graphs (all
+    65536 on 4 files in the thorough tier). *)
 From Pakhi Require Import Base Float64 Syntax Tables Lexer Parser.
-From Pakhi.Proofs Require Import Modules ImportChain.
+From Pakhi.Proofs Require Import Modules ImportChain ParseTerm LoaderTerm.
 Local Open Scope nat_scope.
 
 Theorem C15_cyclic_import_rejected_before_reading : forall fs cwd main_path alias module_path s1,
@@ -40,6 +45,7 @@ Theorem C15_accepted_import_loads_once_in_place : forall fs cwd main_path alias 
     tokenize src (module_file_path main_path module_path) = Ok toks /\
     expand_dirname cwd toks (module_file_path main_path module_path) = Ok toks' /\
     ps_rest s2 = semi :: filter (fun t => negb (tk_is (t_kind t) TEOT)) (prepend_names toks' alias false) ++ after /\
+    tk_is (t_kind (last (filter (fun t => negb (tk_is (t_kind t) TEOT)) (prepend_names toks' alias false)) (Lexer.eot []))) TImport = false /\
     ps_mods s2 = (alias, same_file_key (module_file_path main_path module_path)) :: ps_mods s1.
 Proof. exact import_splices_in_place. Qed.
 Print Assumptions C15_accepted_import_loads_once_in_place.
@@ -85,3 +91,41 @@ Theorem C15_self_import_is_rejected : forall fs cwd main_path a module_path s1 s
   import_tail fs cwd main_path (a ++ c_slash :: x) module_path2 s3 = cyclic_err.
 Proof. exact self_import_is_rejected. Qed.
 Print Assumptions C15_self_import_is_rejected.
+
+(** Termination of loading.  [known] lists the keys of the files that can be read and [L] bounds the length of their
+    texts: that is what "a finite set of module files" means for the file map [fs].  [fin x] is "x is not OutOfFuel". *)
+Theorem C15_loading_terminates : forall fs cwd main_path known L,
+  (forall p src, fs p = Some src -> In (same_file_key p) known /\ S (length src) <= L) ->
+  forall src fuel, 50 * (S (length src) * (S L) ^ length known) + 50 <= fuel -> fin (front fs cwd main_path fuel src).
+Proof. exact loader_terminates. Qed.
+Print Assumptions C15_loading_terminates.
+
+(* the hypothesis is met by every list of files *)
+Theorem C15_a_file_list_is_a_finite_set : forall (files : list (text * text)) p src, assoc_text p files = Some src ->
+  In (same_file_key p) (map fst files) /\ S (length src) <= S (list_max (map (fun e => length (snd e)) files)).
+Proof. exact file_list_is_finite. Qed.
+Print Assumptions C15_a_file_list_is_a_finite_set.
+
+Theorem C15_loading_a_file_list_terminates : forall (files : list (text * text)) cwd main_path src fuel,
+  50 * (S (length src) * (S (S (list_max (map (fun e => length (snd e)) files)))) ^ length files) + 50 <= fuel ->
+  fin (front (fun p => assoc_text p files) cwd main_path fuel src).
+Proof. exact loading_a_file_list_terminates. Qed.
+Print Assumptions C15_loading_a_file_list_terminates.
+
+(* with the no-panic theorem: a statement list or an error value, for all sufficiently large fuel *)
+Theorem C15_loading_a_file_list_returns : forall (files : list (text * text)) cwd main_path src,
+  main_path <> [] -> last main_path c_slash <> c_slash ->
+  exists fuel, forall fuel', fuel <= fuel' ->
+    (exists stmts, front (fun p => assoc_text p files) cwd main_path fuel' src = Ok stmts) \/
+    (exists e, front (fun p => assoc_text p files) cwd main_path fuel' src = Err e).
+Proof. exact loading_a_file_list_returns. Qed.
+Print Assumptions C15_loading_a_file_list_returns.
+
+(* every statement, an import included, keeps the lineage invariant and lowers the weight of the token vector *)
+Theorem C15_every_statement_lowers_the_weight : forall fs cwd main_path known L,
+  (forall p src, fs p = Some src -> In (same_file_key p) known /\ S (length src) <= L) ->
+  forall f s l st s1, ParseTotal.inv s -> ParseTerm.eot s -> Inv known s l -> pstmt fs cwd main_path f s = Ok (st, s1) ->
+  exists l1, ParseTotal.inv s1 /\ ParseTerm.eot s1 /\ Inv known s1 l1 /\ mu known L l1 <= mu known L l /\
+             match st with FEOS _ => True | _ => mu known L l1 < mu known L l end.
+Proof. exact pstmt_progress_all. Qed.
+Print Assumptions C15_every_statement_lowers_the_weight.
